@@ -293,8 +293,11 @@ class Gen:
         if k == 4 and self.std == "f2008" and self.p(0.3):
             return "open(newunit = %s, file = 'data.txt')" % self.ivar(), "open_newunit"
         if k == 4:
-            return ("open(unit = %s, file = %s, status = 'old', iostat = %s)"
-                    % (self.int_lit(), self.ch(["'data.txt'", "\"in put.dat\"", "sTxt"]), self.ivar())), "open"
+            specs = ["unit = %s" % self.int_lit(), "file = %s" % self.ch(["'data.txt'", "\"in put.dat\"", "sTxt"]),
+                     "status = 'old'", "iostat = %s" % self.ivar()]
+            if self.p(0.5):
+                self.r.shuffle(specs)          # connect-specs in any order (UNIT= need not come first)
+            return "open(%s)" % ", ".join(specs[:self.r.randrange(2, 5)] if specs[0].startswith("unit") else specs), "open"
         if k == 5:
             return "close(unit = %s)" % self.int_lit(), "close"
         if k == 6:
